@@ -204,7 +204,9 @@ type watchRec struct {
 	q       []string // query words as in the op (kind idx key | all), nil for InsertWatch
 	pk      []byte   // InsertWatch: the object's primary key
 	result  string   // result when handed out (on the committed state it was asked of)
-	fromTxn bool     // asked inside the open write transaction
+	fromTxn bool     // asked inside the open write transaction (or stale when handed out): no missed-change claim
+	inTxn   int      // serial of the open write transaction it was asked in (0: not inside a transaction / settled)
+	dead    bool     // asked inside a transaction that aborted: the channel may belong to nodes that were never published
 	closed  bool     // last observed
 }
 
@@ -214,17 +216,19 @@ type snapRec struct {
 }
 
 type eng struct {
-	db       *statedb.DB
-	tabs     []statedb.RWTable[*Obj]
-	wtxn     statedb.WriteTxn
-	atBegin  string             // leftovers() when the open transaction began
-	finished []statedb.WriteTxn // handles of finished transactions (the last few)
-	locked   map[int]bool
-	snaps    map[int]*snapRec
-	order    []int // snapshot ids in creation order
-	iters    map[int]*iterState
-	inits    map[string]func(statedb.WriteTxn)
-	initW    map[int]<-chan struct{} // last observed init watch per table (oracle)
+	db        *statedb.DB
+	tabs      []statedb.RWTable[*Obj]
+	wtxn      statedb.WriteTxn
+	atBegin   string // leftovers() when the open transaction began
+	txnSerial int
+	txnMissed int
+	finished  []statedb.WriteTxn // handles of finished transactions (the last few)
+	locked    map[int]bool
+	snaps     map[int]*snapRec
+	order     []int // snapshot ids in creation order
+	iters     map[int]*iterState
+	inits     map[string]func(statedb.WriteTxn)
+	initW     map[int]<-chan struct{} // last observed init watch per table (oracle)
 
 	gcAt   atomic.Value // "idle" | "gate1" | "gate2"
 	gate1  chan struct{}
@@ -700,11 +704,34 @@ func (e *eng) watchOracle(event string) string {
 	bad := ""
 	fresh := e.db.ReadTxn()
 	for i, w := range e.watches {
+		if w.dead {
+			continue
+		}
 		nowClosed := isClosed(w.ch)
 		if nowClosed && !w.closed && event != "commit" {
 			bad = fmt.Sprintf(" !BAD:C06:closed-by-%s(w%d)", event, i)
 		}
 		w.closed = nowClosed
+		if w.inTxn != 0 && w.inTxn == e.txnSerial {
+			switch event {
+			case "abort":
+				w.dead = true
+				continue
+			case "commit":
+				// a handle taken inside the transaction that has just committed. What the transaction's own later
+				// writes do to it is mechanism level (9.3): every query kind except Get through a unique index
+				// freezes the index transaction first, so the channel is closed by this commit if the answer changed;
+				// reported through the payload of the commit line (the model prints none). From now on it is a handle
+				// on committed state: every LATER transaction that changes the answer must close it.
+				cur, _ := e.runQuery(fresh, w.tab, w.q)
+				getUnique := w.q[0] == "get" && (w.q[1] == "id" || w.q[1] == "u" || w.q[1] == "rev")
+				if !nowClosed && cur != w.result && !getUnique {
+					e.txnMissed++
+				}
+				w.result, w.fromTxn, w.inTxn = cur, false, 0
+				continue
+			}
+		}
 		if event == "commit" && !nowClosed && !w.fromTxn {
 			var cur string
 			if w.q != nil {
@@ -778,6 +805,7 @@ func (e *eng) Op(f []string, line string, out *hx.Out) {
 			}
 		}
 		e.wtxn = e.db.WriteTxn(metas...)
+		e.txnSerial++
 		e.atBegin = e.leftovers()
 		e.ref.begin(e.locked)
 		emit("M:*", "ok")
@@ -908,10 +936,15 @@ func (e *eng) Op(f []string, line string, out *hx.Out) {
 		// InsertWatch channels of the committed transaction guard the object version they were handed out for
 		e.watches = append(e.watches, e.pendingIW...)
 		e.pendingIW = nil
+		e.txnMissed = 0
 		if b := e.watchOracle("commit"); b != "" {
 			bad = b
 		}
-		emit("M:*", "ok")
+		if e.txnMissed > 0 {
+			emit("M:*", "ok handles-taken-inside-the-transaction-not-closed-by-its-commit=%d", e.txnMissed)
+		} else {
+			emit("M:*", "ok")
+		}
 	case "abort":
 		if e.wtxn == nil {
 			emit("M:*", "n/a")
@@ -972,6 +1005,9 @@ func (e *eng) Op(f []string, line string, out *hx.Out) {
 		// the result the channel guards: that of the committed state the snapshot shows; for queries
 		// inside the open write transaction nothing is claimed about missed changes
 		e.watches = append(e.watches, &watchRec{ch: ch, tab: tab, q: f[3:], result: res, fromTxn: f[1] == "txn", closed: isClosed(ch)})
+		if f[1] == "txn" && e.wtxn != nil {
+			e.watches[len(e.watches)-1].inTxn = e.txnSerial
+		}
 		if f[1] != "txn" && f[1] != "fresh" {
 			// an old snapshot: the result may already be stale; remember what a fresh one says only if equal
 			if cur, _ := e.runQuery(e.db.ReadTxn(), tab, f[3:]); cur != res {
